@@ -312,6 +312,26 @@ def np_dot(interp, name, args, kw, st, node):
     return A.binop(interp, "matmul", a, b, st, node)
 
 
+@reg("numpy.inner")
+def np_inner(interp, name, args, kw, st, node):
+    # contraction over the last axis of both operands: A @ B.T for matrices, the dot product for vectors
+    a, b = arrv(args[0]), arrv(args[1])
+    sa, sb = shape(a), shape(b)
+    if sa == () or sb == ():
+        return A.binop(interp, "mul", a, b, st, node)
+    if sa is not None and sb is not None and len(sb) == 2:
+        return A.binop(interp, "matmul", a, transpose(interp, b), st, node)
+    if sa is not None and sb is not None and len(sb) == 1:
+        return A.binop(interp, "matmul", a, b, st, node)
+    return fresh_arr(callterm(name, args, kw), None, _L(*args, *kw.values()))
+
+
+@reg("numpy.ix_")
+def np_ix(interp, name, args, kw, st, node):
+    # open mesh of index vectors: A[np.ix_(r, c)] selects rows r, then columns c
+    return V("tuple", T("ix_", *[a.term for a in args]), items=None, labels=_L(*args), extra=("ix_", list(args)))
+
+
 @reg("numpy.outer")
 def np_outer(interp, name, args, kw, st, node):
     a, b = arrv(args[0]), arrv(args[1])
@@ -351,6 +371,33 @@ def np_tensordot(interp, name, args, kw, st, node):
             xa = x if pair[0] == 1 else transpose(interp, x)
             yb = y if pair[1] == 0 else transpose(interp, y)
             return A.binop(interp, "matmul", xa, yb, st, node)
+    if sx is not None and sy is not None and len(sx) == 3 and len(sy) == 2 and ax is not None and ax.kind in ("tuple", "list") and ax.items is not None and len(ax.items) == 2:
+        # a stack of matrices contracted over its last axis: S[k] @ B (B transposed first when its
+        # second axis is the contracted one); the result axes are (stack, row, free axis of B)
+        def one(v_):
+            if v_.has_const and isinstance(v_.const, int):
+                return v_.const
+            if v_.kind in ("list", "tuple") and v_.items is not None and len(v_.items) == 1 and v_.items[0].has_const and isinstance(v_.items[0].const, int):
+                return v_.items[0].const
+            return None
+        ia, ib = one(ax.items[0]), one(ax.items[1])
+        if ia is not None and ib is not None and ia % 3 == 2:
+            yb = y if ib % 2 == 0 else transpose(interp, y)
+            return A.binop(interp, "matmul", x, yb, st, node)
+    return fresh_arr(callterm(name, args, kw), None, _L(*args, *kw.values()))
+
+
+@reg("numpy.swapaxes")
+def np_swapaxes(interp, name, args, kw, st, node):
+    b = bind(["a", "axis1", "axis2"], args, kw)
+    x = arrv(b["a"])
+    sh = shape(x)
+    a1, a2 = b.get("axis1"), b.get("axis2")
+    if sh is not None and a1 is not None and a2 is not None and a1.has_const and a2.has_const and isinstance(a1.const, int) and isinstance(a2.const, int):
+        perm = list(range(len(sh)))
+        i, j = a1.const % len(sh), a2.const % len(sh)
+        perm[i], perm[j] = perm[j], perm[i]
+        return transpose(interp, x, interp.mk_tuple([vconst(p_) for p_ in perm]))
     return fresh_arr(callterm(name, args, kw), None, _L(*args, *kw.values()))
 
 
@@ -1554,7 +1601,7 @@ CONSUMED_KW = {
     "numpy.linalg.svd": {"full_matrices"}, "scipy.linalg.svd": {"full_matrices"},
     "numpy.linalg.pinv": {"rcond", "rtol"}, "scipy.linalg.pinv": {"rcond", "rtol"}, "numpy.linalg.inv": set(), "scipy.linalg.inv": set(),
     "numpy.linalg.lstsq": {"rcond"}, "scipy.linalg.lstsq": {"rcond"}, "scipy.sparse.linalg.eigsh": {"k", "v0"},
-    "numpy.linalg.matrix_rank": set(), "numpy.linalg.slogdet": set(), "scipy.linalg.orthogonal_procrustes": set(), "scipy.linalg.sqrtm": set(),
+    "numpy.linalg.matrix_rank": set(), "numpy.linalg.slogdet": set(), "scipy.linalg.orthogonal_procrustes": {"check_finite"}, "scipy.linalg.sqrtm": set(),
     "sklearn.utils.extmath.randomized_svd": {"n_components", "random_state"}, "sklearn.utils.extmath.svd_flip": set(),
     "numpy.argsort": {"axis"}, "numpy.sort": {"axis"}, "numpy.flip": {"axis"}, "numpy.cumsum": set(), "numpy.trace": set(), "numpy.diag": set(), "numpy.diagflat": set(), "numpy.diagonal": set(),
     "numpy.unique": set(), "numpy.setdiff1d": set(), "numpy.where": set(), "numpy.argwhere": set(), "numpy.take": {"axis"}, "numpy.concatenate": {"axis"}, "numpy.vstack": set(), "numpy.hstack": set(),
